@@ -71,9 +71,12 @@ func NewRedundantWhitespaceRule() *RedundantWhitespaceRule {
 func (r *RedundantWhitespaceRule) Check(ctx *linter.Context) ([]linter.Violation, error) {
 	violations := []linter.Violation{}
 
+	masks, _ := linter.LineMask(ctx.SQL)
+
 	for lineNum, line := range ctx.Lines {
-		// Skip checking inside string literals - we'll check the non-string parts
-		parts := extractNonStringParts(line)
+		// Literals, quoted identifiers and comments (also multi-line ones) are
+		// blanked out byte for byte, so columns stay those of the original line
+		parts := extractNonStringParts(maskedLine(line, maskFor(masks, lineNum)))
 
 		for _, part := range parts {
 			// Check for multiple consecutive spaces (not at line start - indentation)
@@ -177,12 +180,46 @@ func extractNonStringParts(line string) []linePart {
 // Returns the fixed content with redundant whitespace removed, and nil error.
 func (r *RedundantWhitespaceRule) Fix(content string, violations []linter.Violation) (string, error) {
 	lines := strings.Split(content, "\n")
+	masks, _ := linter.LineMask(content)
 
 	for i, line := range lines {
-		lines[i] = r.fixLine(line)
+		// decide on the masked line, copy the bytes of the original one: string
+		// literals, quoted identifiers and comments stay exactly as they are
+		masked := maskedLine(line, maskFor(masks, i))
+		indent := len(masked) - len(strings.TrimLeft(masked, " \t"))
+		var b strings.Builder
+		b.Grow(len(line))
+		b.WriteString(line[:indent])
+		prevSpace := false
+		for k := indent; k < len(line); k++ {
+			if masked[k] == ' ' {
+				if prevSpace {
+					continue // second and later space of a run in code
+				}
+				prevSpace = true
+			} else {
+				prevSpace = false
+			}
+			b.WriteByte(line[k])
+		}
+		lines[i] = b.String()
 	}
 
 	return strings.Join(lines, "\n"), nil
+}
+
+// maskedLine returns line with every byte outside plain code replaced by 'x'.
+func maskedLine(line string, mask []bool) string {
+	if mask == nil {
+		return line
+	}
+	b := []byte(line)
+	for i := range b {
+		if i < len(mask) && !mask[i] {
+			b[i] = 'x'
+		}
+	}
+	return string(b)
 }
 
 // fixLine reduces multiple spaces to single space in a line.
